@@ -274,7 +274,10 @@ def mutate_text(rng, text):
                 tz_l = [l for l in nz if l.upper().startswith("TZID")]
                 nz = [l for l in nz if not l.upper().startswith("TZID")]
                 nz = nz[:-1] + tz_l + nz[-1:]
-            elif variant == 3:
+            if rng.random() < 0.5:
+                # the same rules under other names: every zone keeps ITS OWN TZNAMEs (nothing is shared between the zones of a stream)
+                nz = [(l + str(j + 2)) if l.upper().startswith("TZNAME:") else l for l in nz]
+            if variant == 3:
                 # a zone without components after a complete one
                 nz = [l for l in nz if l.upper().startswith(("BEGIN:VTIMEZONE", "END:VTIMEZONE", "TZID"))]
             lines = lines + nz
@@ -959,3 +962,110 @@ TRUSTED = TRUSTED + [
 TRUSTED = TRUSTED + [
     "translator tie for tzical._parse_rfc: harness/translate_rfc.py re-translates it from /repo's working tree into Generated/TzRfcKernels.lean on every run (while-loop body and condition, line-loop body on the record of carried locals, whole function); named primitives in Model/RfcPy.lean (split(c,1) with its unpack ValueError, del l[i], l[i] += x, for-loops that only raise, the fuelled while loop - proved never to exhaust its fuel -, rrulestr(...) as a parameter: C13's domain, _tzicalvtzcomp / _tzicalvtz constructors as records, self._vtz as an insertion-ordered association list, locals first bound inside a component starting at the record's defaults); exercised through the driver op tzgen.ical.rfc on every correspondence text",
 ]
+
+
+# --- several zones in one stream (wt-tzrule, second wave): zones with IDENTICAL offsets and rules but different TZNAMEs, fetched by TZID,
+# answer exactly like the same definition loaded alone (nothing of one zone's components may be reused for another zone)
+def oracle_multi_zone(ctx):
+    from dateutil import tz
+    rng = ctx.subrng("multi-zone")
+    for k in range(ctx.budget(6, 60)):
+        spec = gen_spec(rng)
+        ids = ["Zone/A", "Zone/B", "Zone/C"][:rng.choice([2, 3])]
+        names = {"Zone/A": ("AS", "AD"), "Zone/B": ("BS", "BD"), "Zone/C": ("CS", "CD")}
+        other = gen_spec(rng)
+        parts = []
+        for i, zid in enumerate(ids):
+            sp = other if (zid == "Zone/C" and rng.random() < 0.5) else spec
+            parts.append((zid, sp, vtimezone(sp, rng if k % 2 else None, tzid=zid, names=names[zid], order=(k + i) % 2)))
+        stream = "".join(t for _, _, t in parts)
+        with warnings.catch_warnings():
+            warnings.simplefilter("ignore")
+            try:
+                multi = load(stream)
+            except Exception as ex:
+                ctx.case(("multi-zone", stream))
+                ctx.violation("tzical rejects a stream of %d well-formed zones: %s" % (len(ids), exc_kind(ex)), {"kind": "multi-zone", "phase": "load"}, stream)
+                continue
+            ctx.case(("multi-zone-keys", stream))
+            if sorted(multi.keys()) != sorted(ids):
+                ctx.violation("keys() of a %d-zone stream: %r, expected %r" % (len(ids), multi.keys(), ids), {"kind": "multi-zone", "phase": "keys"}, stream)
+                continue
+            bad = False
+            for zid, sp, text in parts:
+                zm, zs = multi.get(zid), load(text).get()
+                for y in (2019, 2022):
+                    for tu in transitions_utc(sp, y):
+                        for d in (-86400, -1, 0, 1, 86400):
+                            u = tu + datetime.timedelta(seconds=d)
+                            a = u.replace(tzinfo=tz.UTC).astimezone(zm); b = u.replace(tzinfo=tz.UTC).astimezone(zs)
+                            ta = (a.replace(tzinfo=None), a.fold, a.utcoffset(), a.tzname(), a.dst())
+                            tb = (b.replace(tzinfo=None), b.fold, b.utcoffset(), b.tzname(), b.dst())
+                            ctx.case(("multi-zone", zid, tzstr_of(sp), secs(u)), nontrivial=True)
+                            if ta != tb or a.tzname() not in names[zid]:
+                                ctx.violation("zone %s of a %d-zone stream at %sZ answers %r; the same definition loaded alone answers %r" % (
+                                    zid, len(ids), u.isoformat(), ta[1:], tb[1:]), {"kind": "multi-zone", "phase": "lookup", "tzid": zid, "utc": u.isoformat()}, stream)
+                                bad = True
+                                break
+                        if bad: break
+                    if bad: break
+                if bad: break
+        ctx.count("multi_zone_streams")
+
+_oracle_without_multi = oracle
+
+def oracle(ctx):
+    _oracle_without_multi(ctx)
+    oracle_multi_zone(ctx)
+# --- end of the appended block
+
+
+# --- the last representable years (wt-tzrule, second wave): a yearly component rule still yields its occurrences of year 9998 / 9999
+# (DTSTART 9990), so the zone agrees with the tzstr of the same rules there too (years 1..2 are not swept: the DTSTART text of year 1
+# goes through parser.parse's two-digit-year reading, which is C02's subject)
+def oracle_edge_years(ctx):
+    from dateutil import tz
+    rng = ctx.subrng("edge-years")
+    for k in range(ctx.budget(8, 80)):
+        spec = gen_spec(rng)
+        for first, years in ((9990, (9997, 9998, 9999)),):
+            text = vtimezone(spec, first_year=first, order=k % 2)
+            s = tzstr_of(spec)
+            with warnings.catch_warnings():
+                warnings.simplefilter("ignore")
+                try:
+                    zi = load(text).get(); zs = reference_zone(spec)
+                except Exception as ex:
+                    ctx.case(("edge-load", text))
+                    ctx.violation("tzical rejects a well-formed VTIMEZONE with DTSTART in year %d: %s" % (first, exc_kind(ex)), {"kind": "edge-years", "phase": "load"}, text)
+                    continue
+                ok = True
+                for y in years:
+                    a, b = transitions_utc(spec, y)
+                    first_onset = min(transitions_utc(spec, first)) + datetime.timedelta(days=2)
+                    probes = [t + datetime.timedelta(seconds=d) for t in (a, b) for d in (-86400, -3600, -1, 0, 1, 3600, 86400)] + \
+                        [datetime.datetime(y, 6, 15, 12), datetime.datetime(y, 7, 15), datetime.datetime(y, 2, 10, 6), datetime.datetime(y, 12, 10, 18)]
+                    for u in probes:
+                        if u < first_onset:
+                            continue          # the property speaks "from its first onset on"
+                        ctx.case(("edge-years", s, secs(u)), nontrivial=True)
+                        try:
+                            x = u.replace(tzinfo=tz.UTC).astimezone(zs); w = u.replace(tzinfo=tz.UTC).astimezone(zi)
+                            tx = (x.replace(tzinfo=None), x.utcoffset(), x.tzname(), x.dst()); tw = (w.replace(tzinfo=None), w.utcoffset(), w.tzname(), w.dst())
+                        except OverflowError:
+                            continue
+                        if tx != tw:
+                            ctx.violation("year %d: tzical %r != tzstr %r at %sZ" % (y, tw[1:], tx[1:], u.isoformat()),
+                                          {"kind": "edge-years", "phase": "lookup", "tzstr": s, "utc": u.isoformat(), "dtstart_year": first}, text)
+                            ok = False
+                            break
+                    if not ok:
+                        break
+        ctx.count("edge_year_zones")
+
+_oracle_without_edge = oracle
+
+def oracle(ctx):
+    _oracle_without_edge(ctx)
+    oracle_edge_years(ctx)
+# --- end of the appended block
